@@ -76,9 +76,11 @@ class CSlli(RiscvcInstruction):
     syntax = Syntax(["c", ".", "slli", " ", rd, ",", " ", rs, ",", " ", imm])
 
     def encode(self):
+        if self.imm not in range(32):
+            raise ValueError(f"c.slli shift amount {self.imm} not in 0..31")
         tokens = self.get_tokens()
         tokens[0][0:2] = 0b10
-        tokens[0][2:7] = self.imm & 0xF
+        tokens[0][2:7] = self.imm
         tokens[0][7:12] = self.rd.num
         tokens[0][13:16] = 0b0000
         return tokens[0].encode()
@@ -86,12 +88,18 @@ class CSlli(RiscvcInstruction):
 
 class CiBase(RiscvcInstruction):
     def encode(self):
+        # c.andi has a signed 6 bit immediate (imm[5] is bit 12), the
+        # shifts have a 5 bit shift amount on RV32 (bit 12 must be 0):
+        valid = range(-32, 32) if self.func == 0b10 else range(32)
+        if self.imm not in valid:
+            raise ValueError(f"immediate {self.imm} out of range")
         tokens = self.get_tokens()
         tokens[0][0:2] = 0b01
-        tokens[0][2:7] = self.imm
+        tokens[0][2:7] = self.imm & 0x1F
         tokens[0][7:10] = self.rd.num - 8
         tokens[0][10:12] = self.func
-        tokens[0][12:16] = 0b1000
+        tokens[0][12:13] = (self.imm >> 5) & 1
+        tokens[0][13:16] = 0b100
         return tokens[0].encode()
 
 
@@ -115,11 +123,14 @@ class CAddi(RiscvcInstruction):
     syntax = Syntax(["c", ".", "addi", " ", rd, ",", " ", rd, ",", " ", imm])
 
     def encode(self):
+        if self.imm not in range(-32, 32):
+            raise ValueError(f"c.addi immediate {self.imm} not in -32..31")
         tokens = self.get_tokens()
         tokens[0][0:2] = 0b01
-        tokens[0][2:7] = self.imm
+        tokens[0][2:7] = self.imm & 0x1F
         tokens[0][7:12] = self.rd.num
-        tokens[0][12:16] = 0b0000
+        tokens[0][12:13] = (self.imm >> 5) & 1
+        tokens[0][13:16] = 0b000
         return tokens[0].encode()
 
 
